@@ -228,6 +228,10 @@ def rules(ctx):
     # the layout of one individual's event data (number of event types) never depends on what the rest of the cohort contains (same rule as C14.R6)
     from .c14 import r6_configured_event_count
     r6_configured_event_count(ctx, rid="C07.R9")
+    # the individual sampler's decision for one individual uses that individual's terms only: no reduction over the individuals (a cohort-wide
+    # maximum, mean, normalisation ...) enters the acceptance ratio (same rule as C03.R5b)
+    from .c03 import r5b_no_cross_individual_weights
+    r5b_no_cross_individual_weights(ctx, rid="C07.R10")
     ctx.trust("joblib.Parallel preserves the order of its generator and runs each call on the arguments given")
     ctx.assume("population tensors broadcast along trailing axes (never aligned with the individual axis by coincidence)")
 
